@@ -3,9 +3,13 @@
 package sessions
 
 import (
+	"bufio"
 	"fmt"
+	"net"
 	"net/http"
 	"net/http/httptest"
+	"net/http/httputil"
+	"net/url"
 	"strings"
 	"sync"
 	"testing"
@@ -278,4 +282,105 @@ func TestVerifC10Concurrent(t *testing.T) {
 		}
 	}
 	out.emit(map[string]interface{}{"kind": "concurrent", "first_use_rounds": roundsFirst, "cookies_lost_at_first_use": lostFirstUse, "first_use_examples": lostExample, "sessions": nsess, "requests": nsess * 4 * rounds, "panics": panics, "mixed": mixed, "missing": missing, "leaked": leaked})
+}
+
+// TestVerifC10Interim: backends that send informational responses (100, 102, 103, twice 103) before the final response.
+// The whole chain is real here: client -> httptest server -> SessionHandler -> httputil.ReverseProxy -> raw TCP backend.
+// The client must get the final status, no backend cookie, a session cookie; the cookie must be in the session afterwards.
+func TestVerifC10Interim(t *testing.T) {
+	out := verifOpenOut(t)
+	defer out.close()
+	const cookieName = "verif-session"
+	type sc struct {
+		Interim []int  `json:"interim"`
+		Status  int    `json:"status"`
+		Cookie  string `json:"cookie"`
+	}
+	var cur sc
+	var mu sync.Mutex
+	var seenCookies []string
+	ln, err := net.Listen("tcp", "127.0.0.1:0")
+	if err != nil {
+		t.Fatal(err)
+	}
+	defer ln.Close()
+	go func() {
+		for {
+			c, err := ln.Accept()
+			if err != nil {
+				return
+			}
+			go func(c net.Conn) {
+				defer c.Close()
+				br := bufio.NewReader(c)
+				for {
+					req, err := http.ReadRequest(br)
+					if err != nil {
+						return
+					}
+					mu.Lock()
+					s := cur
+					seenCookies = nil
+					for _, ck := range req.Cookies() {
+						seenCookies = append(seenCookies, ck.Name+"="+ck.Value)
+					}
+					mu.Unlock()
+					for _, code := range s.Interim {
+						fmt.Fprintf(c, "HTTP/1.1 %d %s\r\nLink: </s.css>; rel=preload\r\n\r\n", code, http.StatusText(code))
+					}
+					fmt.Fprintf(c, "HTTP/1.1 %d %s\r\n", s.Status, http.StatusText(s.Status))
+					if s.Cookie != "" {
+						fmt.Fprintf(c, "Set-Cookie: %s\r\n", s.Cookie)
+					}
+					fmt.Fprintf(c, "Content-Length: 2\r\n\r\nok")
+				}
+			}(c)
+		}
+	}()
+	u, _ := url.Parse("http://" + ln.Addr().String())
+	for ci, s := range []sc{{nil, 200, "k1=v1; Path=/"}, {[]int{103}, 200, "k1=v1; Path=/"}, {[]int{103}, 404, "k2=v2; Path=/"}, {[]int{102}, 302, "k3=v3; Path=/"},
+		{[]int{103, 103}, 200, "k4=v4; Path=/"}, {[]int{103}, 200, ""}, {[]int{100}, 201, "k5=v5; Path=/"}} {
+		cache := NewCache(cookieName, time.Hour, 10, true)
+		srv := httptest.NewServer(cache.SessionHandler(httputil.NewSingleHostReverseProxy(u), nil))
+		client := &http.Client{CheckRedirect: func(*http.Request, []*http.Request) error { return http.ErrUseLastResponse }}
+		mu.Lock()
+		cur = s
+		mu.Unlock()
+		res := map[string]interface{}{"kind": "interim", "index": ci, "backend": s}
+		resp, err := client.Get(srv.URL + "/x")
+		if err != nil {
+			res["err"] = err.Error()
+			out.emit(res)
+			srv.Close()
+			continue
+		}
+		resp.Body.Close()
+		res["status"] = resp.StatusCode
+		var names []string
+		session := ""
+		for _, ck := range resp.Cookies() {
+			names = append(names, ck.Name)
+			if ck.Name == cookieName {
+				session = ck.Value
+			}
+		}
+		res["client_set_cookie_names"] = names
+		res["session_issued"] = session != ""
+		// second request in the session: the backend must see the cookie it set
+		mu.Lock()
+		cur = sc{Status: 200}
+		mu.Unlock()
+		req, _ := http.NewRequest("GET", srv.URL+"/y", nil)
+		if session != "" {
+			req.AddCookie(&http.Cookie{Name: cookieName, Value: session})
+		}
+		if r2, err := client.Do(req); err == nil {
+			r2.Body.Close()
+		}
+		mu.Lock()
+		res["backend_saw_on_second_request"] = append([]string{}, seenCookies...)
+		mu.Unlock()
+		out.emit(res)
+		srv.Close()
+	}
 }
